@@ -91,6 +91,9 @@ def gen_impure_stack(rng):
     # a transform that spreads (or not) the taint
     t = {'k': 'transform', 'cls': 'T1', 'fields': {'c': {'args': rng.choice([['a'], ['b'], ['a', 'b'], ['k']])}}, 'params': {},
          'cargs': {}, 'defaults': {}, 'inherit': True}
+    if rng.random() < 0.3:
+        # the (possibly impure) value reaches `c` only through arguments annotated Silent: still downstream of the impure function
+        t['fields']['c']['silent'] = list(t['fields']['c']['args'])
     if imp_where == 'transform':
         t['fields']['c']['impure'] = True
         tainted.add('c')
